@@ -93,7 +93,12 @@ func (e Event) String() string {
 		return fmt.Sprintf("%s(%d,flags=%d)", e.Kind, e.Node, e.Arg)
 	case EvReadyCrash, EvAppendCrash:
 		return fmt.Sprintf("%s(%d,stage=%d,flags=%d)", e.Kind, e.Node, e.Arg>>4, e.Arg&15)
-	case EvPropose, EvProposeConf, EvCompact:
+	case EvProposeConf:
+		if e.Peer > 0 {
+			return fmt.Sprintf("%s(%d,menu %d,+%d normal entries,conf last=%v)", e.Kind, e.Node, e.Arg&0xff, e.Peer, e.Arg&0x100 != 0)
+		}
+		return fmt.Sprintf("%s(%d,%d)", e.Kind, e.Node, e.Arg)
+	case EvPropose, EvCompact:
 		return fmt.Sprintf("%s(%d,%d)", e.Kind, e.Node, e.Arg)
 	case EvHeal:
 		return "Heal"
